@@ -657,7 +657,19 @@ def r47(orig, rule):
     return 'for %s in %s.iter() { %s.insert(%s); }' % (c, x, st, f)
 
 
+def r48(orig, rule):
+    # X.into_iter().rev().map(|A| F).collect()   (tail expression; X a slice, element type T from the rule argument)
+    #   ->  { let mut __v: Vec<T> = Vec::new(); let mut __i = X.len(); while __i > 0 { __i -= 1; let A = &X[__i]; __v.push(F); } __v }
+    #   (the reversed iterator yields X[len-1], ..., X[0])
+    s = norm(orig)
+    ty = rule.split(None, 1)[1]
+    m = _m(r'(.+?) \. into_iter \( \) \. rev \( \) \. map \( \| (%s) \| (.+) \) \. collect \( \)' % ID, s)
+    x, a, f = m.groups()
+    return '{ let mut __v: Vec<%s> = Vec::new(); let mut __i = %s.len(); while __i > 0 { __i -= 1; let %s = &%s[__i]; __v.push(%s); } __v }' % (ty, x, a, x, f)
+
+
 GENERATORS = {
+    'R48': r48,
     'R46': r46, 'R47': r47,
     'R44': r44, 'R45': r45,
     'R40': r40, 'R41': r41, 'R42': r42, 'R43': r43,
